@@ -81,6 +81,6 @@ def subchecks():
             run_case=run_case,
             strategy=lambda tier: gen.scenario(tier),
             examples={"quick": 5000, "thorough": 60000},
-            case_timeout=120.0,
+            case_timeout=20.0,
         ),
     ]
